@@ -29,7 +29,7 @@ async fn start_app(sc: &Value) -> Option<(u16, tokio::task::JoinHandle<()>)> {
         cfg["proxy_protocol"] = json!({"allow_v1": sc["allowV1"].as_bool().unwrap_or(true), "allow_v2": sc["allowV2"].as_bool().unwrap_or(true)});
     }
     if let Some(l) = sc["limit"].as_u64() {
-        cfg["rate_limiter"] = json!({"duration": 600, "limit": l});
+        cfg["rate_limiter"] = json!({"duration": sc["durationS"].as_u64().unwrap_or(600), "limit": l});
     }
     let config: passage::config::Config = serde_json::from_value(cfg).ok()?;
     let h = tokio::spawn(async move {
@@ -69,6 +69,11 @@ async fn run_one(sc: &Value) -> Value {
                                                   "target": "t", "profile_properties": [], "extra": {}})).unwrap();
             let signing = if sc["secretMatches"].as_bool().unwrap_or(true) { sc["secret"].as_str().unwrap_or("").to_string() } else { "another secret".to_string() };
             let cookie = ref_sign(&body, signing.as_bytes());
+            let stall = sc["stallS"].as_u64().unwrap_or(0);
+            if stall > 0 {
+                t.cookie_delay = Some(Duration::from_secs(stall));
+            }
+            out["stallS"] = json!(stall);
             let o = login(&mut t, 3, "Claimed", 5, Some(cookie), "encreq", Duration::from_millis(1500)).await;
             out["askedAuthCookie"] = json!(o.asked_auth_cookie);
             out["encReqAuth"] = json!(o.enc_req_auth.unwrap_or(true));
@@ -110,6 +115,17 @@ async fn run_one(sc: &Value) -> Value {
                         tokio::time::sleep(Duration::from_millis(50)).await;
                     }
                 }
+                // a complete five-byte prefix with the sign bit set (i32::MIN), then an endless body
+                "negative-prefix" => {
+                    let _ = t.send_raw(&[0x80, 0x80, 0x80, 0x80, 0x08]).await;
+                    let junk = vec![0x41u8; 1000];
+                    for _ in 0..6 {
+                        if !t.send_raw(&junk).await {
+                            break;
+                        }
+                        tokio::time::sleep(Duration::from_millis(50)).await;
+                    }
+                }
                 "after-handshake" => {
                     let _ = login(&mut t, 2, "X", 1, None, "handshake", Duration::from_millis(300)).await;
                 }
@@ -130,6 +146,7 @@ async fn run_one(sc: &Value) -> Value {
             let eof = t.wait_eof(Duration::from_millis(timeout_ms + 2000).saturating_sub(started.elapsed())).await;
             out["closed"] = json!(eof.is_some());
             out["closedAfterMs"] = json!(started.elapsed().as_millis() as u64);
+            out["closedForGood"] = json!(if eof.is_some() { t.closed_for_good().await } else { false });
             out["timeoutMs"] = json!(timeout_ms);
         }
         "C15app" => {
@@ -139,10 +156,28 @@ async fn run_one(sc: &Value) -> Value {
                 let mut t = Tcp::connect(addr, None).await.unwrap();
                 let src: SocketAddr = c["src"].as_str().unwrap_or("203.0.113.10:40001").parse().unwrap();
                 let dst: SocketAddr = format!("10.0.0.1:{port}").parse().unwrap();
-                let hdr = if c["hdr"] == "v1" { proxy_v1(src, dst) } else { proxy_v2(src, dst) };
-                let _ = t.send_raw(&hdr).await;
+                if c["hdr"] != "none" {
+                    let hdr = if c["hdr"] == "v1" { proxy_v1(src, dst) } else { proxy_v2(src, dst) };
+                    let _ = t.send_raw(&hdr).await;
+                }
                 let o = status_exchange(&mut t, None, Duration::from_millis(1200)).await;
                 res.push(json!({"hdr": c["hdr"], "src": c["src"], "outcome": o, "bytes": t.bytes_received}));
+            }
+            out["results"] = json!(res);
+        }
+        "C13app" => {
+            // one announced source address, connections at chosen moments against the configured limiter
+            let mut res = vec![];
+            let t0 = Instant::now();
+            for c in sc["conns"].as_array().cloned().unwrap_or_default() {
+                tokio::time::sleep(Duration::from_millis(c["waitMs"].as_u64().unwrap_or(0))).await;
+                let at = t0.elapsed().as_millis() as u64;
+                let mut t = Tcp::connect(addr, None).await.unwrap();
+                let src: SocketAddr = c["src"].as_str().unwrap_or("203.0.113.10:40001").parse().unwrap();
+                let dst: SocketAddr = format!("10.0.0.1:{port}").parse().unwrap();
+                let _ = t.send_raw(&proxy_v1(src, dst)).await;
+                let o = status_exchange(&mut t, None, Duration::from_millis(600)).await;
+                res.push(json!({"atMs": at, "outcome": o, "bytes": t.bytes_received}));
             }
             out["results"] = json!(res);
         }
